@@ -324,7 +324,8 @@ _EXTRA = {
     "C16": " The intercept criterion |intercept_update_step| is a positive multiple of the intercept gradient of value() (R-ISTEP).",
     "C17": " The inline fixed-point residual of FISTA is taken with the gradient at the iterate, closures included (R-GRADPOINT).",
     "C18": " Solvers that never initialise the datafit reach no attribute cached by an earlier initialisation (R-LAZYREAD).",
-    "C19": " A datafit that takes log / sqrt of, or divides by, an expression of the target refuses, in initialize and initialize_sparse, every sign of y (zero included) that leaves the domain (R-TARGET-DOMAIN).",
+    "C19": " A datafit that takes log / sqrt of, or divides by, an expression of the target refuses, in initialize and initialize_sparse, every sign of y (zero included) that leaves the domain (R-TARGET-DOMAIN). Block step constants filled inside solver kernels are not the max of per-column terms, a lower bound of the block's largest eigenvalue (R-BLOCKBOUND).",
+    "C09": " Block step constants filled inside solver kernels (prox-Newton models) are spectral / Frobenius / trace forms, never the max of per-column terms (R-BLOCKBOUND).",
 }
 for _p, _t in _EXTRA.items():
     if _p in CLAIMS:
